@@ -23,8 +23,9 @@ from .. import core, findlib as fl, gen_replace_c04 as g
 RULE = ("periodic structures from findlib.planted_structure (1-5 planted copies of 11 patterns of 1-5 atoms, any pose, "
         "origins random / hugging faces / corners, orthorhombic / triclinic +- tilt / rotated cells, decoys), 40 % of them "
         "given with partly UNWRAPPED coordinates (noble-gas bystanders and atoms of planted copies lying up to 0.4 A - and "
-        "less than 0.8 search lengths - outside the cell; half of those also with whole copies given one lattice vector "
-        "outside and bystanders up to 1.6 cell widths outside), a few atom-less structures (cell only), 15 % of the pattern "
+        "less than 0.8 search lengths - outside the cell; half of those also with whole copies given one or two lattice vectors "
+        "outside and bystanders up to 1.6 cell widths outside; every planted copy of an unwrapped structure must be among the "
+        "matches, by construction), a few atom-less structures (cell only), 15 % of the pattern "
         "pairs carrying a cell of their own, 25 % of the calls with numpy-typed scalars (np.float64 / np.int64 / np.bool_), unique charges, "
         "random groups, type labels = or != element names; replacement EMPTY (plain Atoms(), the search pattern with every atom deleted, zero atoms + type tables, + coefficient "
         "tables) / smaller / equal / larger, with / without "
@@ -359,7 +360,7 @@ def np_typed(inp):
 
 def real(inp):
     out = _real(inp)
-    if inp.get("expect") or inp.get("check_find"):
+    if inp.get("check_find") or (inp.get("expect") and inp["info"].get("distorted")):
         out["find_keys"] = find_keys(inp)
     return out
 
